@@ -247,28 +247,18 @@ func checkAssignedKeyExpr(r *Run, p *Prog, fn *FuncNode, as *ast.AssignStmt, rhs
 		})
 		return found
 	}
-	// the slice that receives append(.., ch) in the same block as the assignment
+	// the slice that receives append(.., ch) in the same iteration as the assignment (the
+	// same block, or anywhere in the body of the loop around it)
 	var assigned types.Object
-	ast.Inspect(fn.Body, func(n ast.Node) bool {
-		blk, ok := n.(*ast.BlockStmt)
-		if !ok {
-			return true
-		}
-		has := false
-		for _, s := range blk.List {
-			if s == ast.Stmt(as) {
-				has = true
-			}
-		}
-		if !has {
-			return true
-		}
-		for _, s := range blk.List {
-			if a2, ok := s.(*ast.AssignStmt); ok && len(a2.Lhs) == 1 && len(a2.Rhs) == 1 {
-				if call, ok := ast.Unparen(a2.Rhs[0]).(*ast.CallExpr); ok {
-					if bi, ok := Callee(fn, call).(*types.Builtin); ok && bi.Name() == "append" && len(call.Args) == 2 && objOf(fn, call.Args[0]) == objOf(fn, a2.Lhs[0]) {
-						assigned = objOf(fn, a2.Lhs[0])
-					}
+	var scope ast.Node = fn.Body
+	if lp := enclosingLoop(fn, as); lp != nil {
+		scope = lp
+	}
+	ast.Inspect(scope, func(n ast.Node) bool {
+		if a2, ok := n.(*ast.AssignStmt); ok && len(a2.Lhs) == 1 && len(a2.Rhs) == 1 {
+			if call, ok := ast.Unparen(a2.Rhs[0]).(*ast.CallExpr); ok {
+				if bi, ok := Callee(fn, call).(*types.Builtin); ok && bi.Name() == "append" && len(call.Args) == 2 && objOf(fn, call.Args[0]) == objOf(fn, a2.Lhs[0]) {
+					assigned = objOf(fn, a2.Lhs[0])
 				}
 			}
 		}
